@@ -176,6 +176,17 @@ impl C05 {
     if out.wants_sample("pathmoon", near) {
       out.sample("pathmoon", near, || json!({"lunar_month": [ly, lm], "first_day": first, "precise_conjunction_utc8_days_from_j2000": local}));
     }
+    // successive lunar months belong to successive conjunctions (one synodic month apart): a month whose first day was
+    // taken from a neighbouring lunation would agree with THAT conjunction and pass the day comparison above
+    if p >= 1 {
+      let (py, pm) = lunlist().at(p - 1);
+      let t_prev = lib_conjunction_tt(lunation_first_jd(p - 1));
+      let gap = t - t_prev;
+      let known_irregular = [(8i64, 12i64), (23, 12), (24, 12), (239, 12)].contains(&(py, pm));
+      if !(29.2..=29.9).contains(&gap) && !known_irregular {
+        out.fail(env, viol("pathmoon", "conjunctions_of_successive_months_not_a_lunation_apart", case, &[("ly", ly), ("lm", lm)], format!("L({},{}) after L({},{})", ly, lm, py, pm), "29.2..29.9 days between their precise conjunctions".into(), format!("{:.4} days", gap)));
+      }
+    }
     if pd != first {
       out.fail(env, viol("pathmoon", "first_day_vs_precise_conjunction_day", case, &[("ly", ly), ("lm", lm)], format!("lunation L({},{})", ly, lm), format!("day {} (precise conjunction {})", pd, local), format!("first day {}", first)));
     }
